@@ -2199,6 +2199,12 @@ impl Kanata {
             && self.hscroll_state.is_none()
             && self.move_mouse_state_vertical.is_none()
             && self.macro_on_press_cancel_duration == 0
+            // Keys whose state was removed outside of the layout tick (macro cancellation) are only
+            // released at the OS by the next tick's key-state diff: not idle until that happened.
+            && self
+                .prev_keys
+                .iter()
+                .all(|pk| self.layout.b().keycodes().any(|kc| kc == *pk))
             && self.move_mouse_state_horizontal.is_none()
             && self.dynamic_macro_replay_state.is_none()
             && self.caps_word.is_none()
